@@ -240,6 +240,13 @@ func (s *Solver) Assert(t *Term) error {
 
 func (s *Solver) Check() Result {
 	t0 := time.Now()
+	// watchdog: z3 4.8.12 does not always honour its own :timeout (a query of the C18 thorough tier ran for 40
+	// minutes in one tactic); past the soft limit plus the one retry the solver process is killed, which surfaces
+	// as a solver failure (inconclusive), never as a verdict
+	if cmd := s.cmd; cmd != nil && cmd.Process != nil && s.TimeoutMs > 0 {
+		wd := time.AfterFunc(time.Duration(8*s.TimeoutMs)*time.Millisecond+20*time.Second, func() { cmd.Process.Kill() })
+		defer wd.Stop()
+	}
 	s.send("(check-sat)\n(echo \"@@\")")
 	r := s.readResult()
 	if s.shadow != nil {
